@@ -45,13 +45,14 @@ class StoreWorld:
     """
 
     def __init__(self, sim, backend, cfg=None, storage_opts=None, settle_each=True,
-                 track_states=False, full_states=False):
+                 track_states=False, full_states=False, full_gc=False):
         self.sim = sim
         self.env = RunEnv(sim, backend, cfg=cfg, storage_opts=storage_opts)
         self.env.track_states = track_states
         self.env.full_states = full_states
         self.backend = backend
         self.settle_each = settle_each
+        self.full_gc = full_gc
         self.obs = []
         self.gc = None
         self.on_op = None
@@ -126,6 +127,8 @@ class StoreWorld:
                     o["post"] = env.dump()
             elif kind == "gc":
                 o["pre"] = env.dump()
+                if self.full_gc:
+                    o["pre_full"] = env.dump(full=True)
                 o["T"] = sim.clock.wall()
                 gc = self.make_gc()
                 try:
@@ -136,6 +139,12 @@ class StoreWorld:
                 if self.settle_each:
                     await self.settle()
                     o["post"] = env.dump()
+                    if self.full_gc:
+                        o["post_full"] = env.dump(full=True)
+                        if self.backend == "lmdb":
+                            import lmdb
+                            st = lmdb._ENVS.get(env.lmdb_path)
+                            o["post_raw"] = (list(st.keys), dict(st.data))
             elif kind == "settle":
                 await self.settle()
                 o["res"] = ["ok"]
